@@ -8,7 +8,7 @@ require (
 )
 
 require (
-	github.com/google/uuid v1.6.0 // indirect
+	github.com/google/uuid v1.6.0
 	github.com/x448/float16 v0.8.4 // indirect
 )
 
